@@ -319,6 +319,12 @@ exec_c09(const vcase *vc)
 			Node    &A   = W.n[a];
 			uint32_t tag = ((uint32_t) a << 24) | ++A.seq;
 			nng_msg *m   = h_msg(tag, (size_t) (b & 31));
+			if (!A.raw && (A.seq & 3) != 0) {
+				// round 7: a cooked send ignores whatever header the application left on the message (2, 6 or 8 stale bytes here)
+				static const uint8_t junk[8] = {0x80, 0, 0, 1, 0, 0, 0, 9};
+				nng_msg_header_append(m, junk, (A.seq & 3) == 1 ? 2 : (A.seq & 3) == 2 ? 6 : 8);
+				vr_tag("stale_header_on_cooked_send");
+			}
 			uint64_t t0  = vs_now();
 			int      rv  = nng_sendmsg(A.s, m, NNG_FLAG_NONBLOCK);
 			VR_CHECK(rv == 0, "C09:send-blocked", "BUS non-blocking send on node %d returned %d", a, rv);
